@@ -400,7 +400,7 @@ pub fn trace(ctx: &Ctx, rep: &mut Report) {
         return;
     }
     trace_v::<F512>(ctx, ctx.sz(3, 24), ctx.sz(20, 200), rep);
-    trace_v::<F1024>(ctx, ctx.sz(2, 8), ctx.sz(10, 100), rep);
+    trace_v::<F1024>(ctx, ctx.sz(2, 8), ctx.sz(60, 400), rep);
     rep.require("attempts_replayed", 50);
     rep.require("attempts_after_a_norm_rejection", 1);
     rep.require("signature_vectors_recomputed_exactly", 20);
